@@ -936,3 +936,15 @@ func SpecContains(s string, sub string) bool { return false }
 //@   modifies heap, curDb, cpDb, rootReads, rootOff, rootRun, startSeq, startPinned
 //@   ensures the_seed_is_chosen_after_consulting_the_root_checkpoint: result1 == nil ==> result0 != nil && rootReads == old(rootReads) + 1
 //@   ensures the_seed_is_not_behind_the_root_checkpoint: result1 == nil && checkpoint.matchRun(rootRun, ids) ==> result0.Offset >= rootOff
+
+// ---- withdrawing the resume position before a snapshot is applied (C04) ------------------------
+//   delCalls  number of DelCheckpoint requests (every database of the target) issued
+//@ func RedisOutput.invalidateCheckpoint$1
+//@   arith int
+//@   properties C04
+//@   ghost var delCalls mathint = 0
+//@   requires nonnil: ro != nil
+//@   modifies heap, delCalls, phase, curDb
+//@   set delCalls = delCalls + 1 at call DelCheckpoint
+//@   assert at call DelCheckpoint: the_position_of_this_checkpoint_and_run_id_is_withdrawn: checkpointName == ro.cfg.CheckpointName && arg2 == runId
+//@   ensures success_means_withdrawn: result == nil ==> delCalls == old(delCalls) + 1
